@@ -48,6 +48,7 @@ type Config struct {
 	UIDVStart    uint32
 	UIDVGen      imap.UIDValidityGenerator // overrides the counter generator
 	Parallel     bool                      // false => WithDisableParallelism
+	Dir          string                    // use this directory (kept on Close) instead of a fresh temporary one
 }
 
 // CounterGen is a persistent, monotone UIDVALIDITY generator owned by the harness.
@@ -105,7 +106,11 @@ func New(cfg Config) (*World, error) {
 	}
 	n := atomic.AddUint64(&worldSeq, 1)
 	dir := filepath.Join(baseDir(), fmt.Sprintf("verif-w-%d-%d", os.Getpid(), n))
-	_ = os.RemoveAll(dir)
+	if cfg.Dir != "" {
+		dir = cfg.Dir
+	} else {
+		_ = os.RemoveAll(dir)
+	}
 	if err := os.MkdirAll(dir, 0o700); err != nil {
 		return nil, err
 	}
@@ -477,7 +482,9 @@ func (w *World) Close() {
 	if w.Srv != nil {
 		_ = w.Shutdown()
 	}
-	_ = os.RemoveAll(w.Dir)
+	if w.Cfg.Dir == "" {
+		_ = os.RemoveAll(w.Dir)
+	}
 }
 
 // DB returns the database client of a user.
